@@ -141,6 +141,10 @@ class FlowBase(Monitor):
         return "failed" if any(x in ("failed", "timeout", "abandoned") for x in sts) else "succeeded"
 
 
+def non_failure_errors_present(post):
+    return any(not e.get("message", "").startswith("Execution failed.") for e in post["errors"])
+
+
 def rdplain(d):
     return dict(d)
 
@@ -169,6 +173,11 @@ class Justified(FlowBase):
         return [{"kind": kind, "sig": e.sig, "detail": e.detail}]
 
     def check_quiescent(self, g, sim, post):
+        if post["status"] == st.FAILED and not sim.h["cancel_req"] and not sim.h["pause_req"]:
+            pend = self.ref.pending_cleanup(g)
+            if pend and not non_failure_errors_present(post):
+                return [{"kind": "cleanup_task_never_offered", "sig": {},
+                         "detail": "tasks listed beside a satisfied fail command were never offered: %s" % pend}]
         if post["status"] != st.SUCCEEDED:
             return []
         self.stats["quiescent_success_checked"] += 1
